@@ -217,6 +217,30 @@ func checkC06(P *core.Program, R *core.Report) {
 	}
 	checkSnapshotWriteBack(P, R, "C06-fresh-writeback", spec.Subjects,
 		"x/stablestake/keeper.Keeper.GetParams", "x/stablestake/keeper.Keeper.SetParams")
+	// the same for the per-borrower debt record: a debt loaded before a call that accrues
+	// interest on (and stores) the stored debt must not be written back afterwards
+	checkSnapshotWriteBack(P, R, "C06-fresh-writeback", spec.Subjects,
+		"x/stablestake/keeper.Keeper.getDebt|x/stablestake/keeper.Keeper.UpdateInterestAndGetDebt|x/stablestake/keeper.Keeper.UpdateInterestStacked", "x/stablestake/keeper.Keeper.SetDebt")
+	// interest is a per-block running record: GetInterest takes differences of the records of
+	// two heights, so every BeginBlocker run must write the record of its own height
+	if fn := P.Fn("x/stablestake/keeper.Keeper.BeginBlocker"); fn != nil {
+		ff := P.Facts(fn)
+		isSet := func(in ssa.Instruction) bool {
+			c, ok := in.(ssa.CallInstruction)
+			if !ok || !calleeMatches(P, c, "x/stablestake/keeper.Keeper.SetInterest") {
+				return false
+			}
+			// keyed by the current height
+			return ff.AllOrigins(c.Common().Args[2], nil, func(o core.Origin) bool {
+				return o.Kind == "call" && strings.HasSuffix(o.Name, "types.Context.BlockHeight")
+			})
+		}
+		_, escapes := ff.SuccessExitReachableWithout(nil, isSet)
+		R.Add("C06-interest-record", "x/stablestake/keeper.Keeper.BeginBlocker", "SetInterest(current height) on every path", P.Pos(fn.Pos()), !escapes,
+			"every block writes its interest record (a gap makes GetInterest's difference of running sums negative or stale)")
+	} else {
+		R.Add("C06-interest-record", "x/stablestake/keeper.Keeper.BeginBlocker", "function", "-", false, "unresolved anchor")
+	}
 }
 
 // checkSnapshotWriteBack (R6-F1 for write-backs): when a function loads a record with
@@ -224,9 +248,24 @@ func checkC06(P *core.Program, R *core.Report) {
 // `store` through its own load — otherwise the write-back silently discards that update.
 func checkSnapshotWriteBack(P *core.Program, R *core.Report, rule string, subjects map[*ssa.Function]bool, loadKey, storeKey string) {
 	storeFn := P.Fn(storeKey)
-	if storeFn == nil || P.Fn(loadKey) == nil {
+	loadKeys := strings.Split(loadKey, "|")
+	anyLoad := false
+	for _, lk := range loadKeys {
+		if P.Fn(lk) != nil {
+			anyLoad = true
+		}
+	}
+	if storeFn == nil || !anyLoad {
 		R.Add(rule, storeKey, "function", "-", false, "unresolved anchor")
 		return
+	}
+	isLoad := func(c ssa.CallInstruction) bool {
+		for _, lk := range loadKeys {
+			if calleeMatches(P, c, lk) {
+				return true
+			}
+		}
+		return false
 	}
 	mayStore := P.Summary("mayCall:"+storeKey, func(fn *ssa.Function) bool { return fn == storeFn })
 	for _, fn := range P.Funcs {
@@ -244,7 +283,7 @@ func checkSnapshotWriteBack(P *core.Program, R *core.Report, rule string, subjec
 			// which load produced the record written back?
 			var loads []ssa.CallInstruction
 			for _, o := range ff.Origins(rec) {
-				if c, ok := o.Val.(*ssa.Call); ok && o.Kind == "call" && calleeMatches(P, c, loadKey) {
+				if c, ok := o.Val.(*ssa.Call); ok && o.Kind == "call" && isLoad(c) {
 					loads = append(loads, c)
 				}
 			}
